@@ -105,6 +105,45 @@ def run_ranges(ctx, lo, hi, steps, probe):
     ctx.extra["dateranges"] = len(ranges)
 
 
+RL_VARS = [("a", "Int"), ("b", "Int"), ("x", "Int"), ("n", "Int"), ("done", "Bool")]
+
+
+def run_range_loop(ctx, steps):
+    """RangeLoop.tla: the __iter__ loop yields exactly __len__'s closed form and nothing beyond stop - for UNBOUNDED start / stop by
+    an inductive invariant discharged by Apalache (one run per step and inclusive flag), and on a bounded grid by TLC (same text)."""
+    from concurrent.futures import ThreadPoolExecutor
+    from lib import apalache
+    jobs = []
+    for s in steps:
+        for inc in (True, False):
+            nm = f"MCRangeLoop_{'m' if s < 0 else 'p'}{abs(s)}_{'i' if inc else 'x'}"
+            text = apalache.instance_module(nm, "RangeLoop", RL_VARS, {"S": s, "Inc": "TRUE" if inc else "FALSE", "Bound": 0})
+            for ob, (init, inv, length) in {"initiation": ("Init", "IndInv", 0), "consecution": ("IndInit", "IndInv", 1), "sufficiency": ("IndInit", "Safe", 0)}.items():
+                jobs.append((s, inc, ob, nm, text, init, inv, length))
+
+    def one(j):
+        s, inc, ob, nm, text, init, inv, length = j
+        return j, apalache.check(nm, text, init, inv, length, extra_modules=["RangeLoop"])
+    bad = 0
+    secs = 0.0
+    with ThreadPoolExecutor(max_workers=6) as ex:
+        for j, (holds, t, tail) in ex.map(one, jobs):
+            secs += t
+            if not holds:
+                bad += 1
+                ctx.violation("range/loop-vs-len", f"RangeLoop.tla: obligation {j[2]} fails for step {j[0]} inclusive={j[1]} (Apalache): the iteration loop and the "
+                                                   f"closed form of the length disagree for some start / stop", {"step": j[0], "inclusive": j[1], "obligation": j[2], "apalache": tail})
+    ctx.clause("spec level, unbounded start / stop (Apalache, inductive): the iteration loop yields exactly the closed-form length and nothing beyond stop",
+               len(jobs), bad)
+    ctx.extra["apalache"] = {"obligations": len(jobs), "steps": sorted(steps), "solver_seconds": round(secs, 1)}
+    # the same module on a bounded grid, by TLC (with termination)
+    for s in sorted(steps)[:2] + sorted(steps)[-2:]:
+        for inc in (True, False):
+            name, mc, cl = tlcmod.wrap("RangeLoop", {"S": s, "Inc": inc, "Bound": 12}, name=f"MCRangeLoopT")
+            cfg = "INIT BInit\nNEXT Next\n" + cl + "INVARIANT IndInv\nINVARIANT Safe\nCHECK_DEADLOCK FALSE\n"
+            ctx.tlc(name, label=f"RangeLoop bounded S={s} Inc={inc}", cfg_text=cfg, extra_files={name + ".tla": mc}, workers=4, timeout=600)
+
+
 def run_eop(ctx, maxsteps):
     name, mc, cl = tlcmod.wrap("Eop", {"Names": {"a", "b"}, "MaxSteps": maxsteps})
     cfg = "SPECIFICATION Spec\n" + cl + "INVARIANT ValuesOnlyWhenCovered\nPROPERTY FailedIsSticky\nCHECK_DEADLOCK FALSE\n"
@@ -172,6 +211,7 @@ def run(ctx):
         run_ranges(ctx, -12, 12, [-8, -6, -4, -2, 2, 4, 6, 8], 30)
     else:
         run_ranges(ctx, -8, 8, [-6, -4, -2, 2, 4, 6], 20)
+    run_range_loop(ctx, [-7, -1, 1, 3] if not thorough else [-86400, -60, -7, -3, -2, -1, 1, 2, 3, 5, 7, 60, 3600, 86400, 1000000])
     run_eop(ctx, 5 if thorough else 4)
     # ---- the repository's own test-suite, trace-validated (SuiteTrace.tla / RoutingTrace.tla) -----------------------------
     from checks import suite
